@@ -55,7 +55,8 @@ def decorate(rows, tpl, tag):
     if tpl == 'two':
         return ['%s ; %s a%d ; b%d' % (ln, tag, i, i) for i, ln in enumerate(lines)]
     if tpl == 'line':
-        return ['; columns of ' + tag, lines[0], ';%s between' % tag] + lines[1:]
+        # whole-line comments, two of them ending in a backslash (a path, an ASCII drawing): comments all the same
+        return ['; columns of ' + tag, ';   /  \\', lines[0], ';%s between, see D:\\top\\' % tag] + lines[1:]
     if tpl == 'blank':
         return ['', lines[0], '   '] + lines[1:]
     if tpl == 'ifdef':
@@ -262,6 +263,8 @@ class C16(Check):
                         tpl[pos] = t
                         yield {'k': 'gen', 'secs': secs, 'tpl': tpl, 'empties': t}
             yield {'k': 'pathseq'}
+            for t in ('plain', 'comment', 'two'):
+                yield {'k': 'edit-then-other', 'tpl': t}
             # several molecules in one file: [ moleculetype ] itself is a repeated section name
             for tail in (['bonds'], ['bonds', 'dihedrals']):
                 for t in ('plain', 'comment'):
@@ -307,6 +310,33 @@ class C16(Check):
                     R.violation('same-paths-rewritten/' + sig, case, '%s (file %d of the sequence): %s' % (f, i, det))
                 if sigs:
                     break
+            return
+        if case['k'] == 'edit-then-other':
+            # call history over TWO files: the lines of a loaded file A are edited through their public setters (and A
+            # is saved under another name); the round trip of an untouched file B holding lines of the same text must
+            # still reproduce B
+            from gaddlemaps.parsers import ItpFile
+            secs = ['moleculetype', 'atoms', 'bonds', 'dihedrals', 'bonds']
+            text = render(secs, [case['tpl']] * len(secs), 1, 1)
+            pa, pb = os.path.join(d, 'a.itp'), os.path.join(d, 'b.itp')
+            for p in (pa, pb):
+                with open(p, 'w', encoding='utf-8') as fh:
+                    fh.write(text)
+            A = ItpFile(pa)
+            for sec in ('atoms', 'bonds', 'dihedrals'):
+                for i, ln in enumerate(A[sec]):
+                    if ln.content:
+                        ln.comment = 'fitted against the AA run (%d)' % i
+            for ln in A['atoms']:
+                if ln.content:
+                    ln.charge = 0.25
+                    ln.mass = 13.5
+            A['dihedrals'][-1].content = '1 2 3 4 9 0.0 9.9 1'
+            A.write(os.path.join(d, 'a_annotated.itp'))
+            sigs, outcome, _ = roundtrip(pb, text, d)
+            R.case(case, nontrivial=True, outcome=outcome, cls='other-file-edited-before')
+            for sig, det in sigs:
+                R.violation('after-editing-another-file/' + sig, case, det)
             return
         if case['k'] == 'shipped':
             import gaddlemaps
